@@ -33,7 +33,7 @@ pub fn cases(tier: Tier) -> Vec<Case> {
     };
     for (i, s) in g1.all().into_iter().enumerate() {
         if s.n_nodes() <= 5 || i % keep1 == 0 {
-            out.push(Case { t: s, layout: (i % 4) as u8 });
+            out.push(Case { t: s, layout: (i % 5) as u8 });
         }
     }
     // dim 2: concurrent (through the origin), parallel, coincident up to scaling
@@ -47,7 +47,7 @@ pub fn cases(tier: Tier) -> Vec<Case> {
     };
     for (i, s) in g2.all().into_iter().enumerate() {
         if s.n_nodes() <= 4 || i % keep2 == 0 {
-            out.push(Case { t: s, layout: (i % 4) as u8 });
+            out.push(Case { t: s, layout: (i % 5) as u8 });
         }
     }
     out
@@ -316,7 +316,7 @@ pub fn run(tier: Tier) -> Report {
     let total = par_cases(&cs, |_, c| run_case(c));
     rep.absorb(total);
     rep.set("bound", match tier {
-        Tier::Quick => "binary trees with <= 7 nodes, depth <= 3, total and partial, predicates in special position (dim 1: coincident/parallel/opposite; dim 2: concurrent, parallel, negatively scaled), four storage layouts (depth-first, breadth-first, re-used indices, column-major matrices); skip plans: none, before the first next() (once, twice, and combined with every single position), every single position once and twice, every pair",
+        Tier::Quick => "binary trees with <= 7 nodes, depth <= 3, total and partial, predicates in special position (dim 1: coincident/parallel/opposite; dim 2: concurrent, parallel, negatively scaled), five storage layouts (depth-first, breadth-first, re-used indices, column-major matrices, interleaved siblings); skip plans: none, before the first next() (once, twice, and combined with every single position), every single position once and twice, every pair",
         Tier::Thorough => "same with <= 9 nodes",
     });
     rep.assume("faces of the full arrangement of the tree's predicates are enumerated; real find_terminal is called at every face whose witness is exactly representable");
